@@ -22,6 +22,7 @@
 #include <cmath>
 #include <climits>
 #include <cfloat>
+#include <cfenv>
 #include <string>
 #include <vector>
 #include <iostream>
@@ -264,6 +265,12 @@ int main()
         const std::string& k = req.str("k");
         Out o;
         bool ok = true;
+        // optional "rm": the calling thread's floating-point rounding direction while this row is evaluated
+        // (0 nearest, 1 upward, 2 downward, 3 toward zero).  half's own operations and float->half conversion
+        // are defined as round-to-nearest-even whatever the environment says.
+        static const int RM[4] = { FE_TONEAREST, FE_UPWARD, FE_DOWNWARD, FE_TOWARDZERO };
+        const bool setrm = req.has("rm");
+        if (setrm) std::fesetround(RM[(int)req.num("rm") & 3]);
         if (k == "hdr")
         {
             if (req.has("S")) S = req.ints("S");
@@ -361,6 +368,7 @@ int main()
             std::fprintf(stderr, "request line %lld: unknown kind/function: %.200s\n", nline, line.c_str());
             return 3;
         }
+        if (setrm) std::fesetround(FE_TONEAREST);
         emit(req, o);
     }
     std::fflush(stdout);
